@@ -101,6 +101,10 @@ def utils_scenario(rng):
            'build 13 a1;o3;c6f70;s7265706c616365;c70617468;s;c76616c7565;o1;k61;t', 'dup 14 1 1', 'patch 14 13 1',
            'build 15 o2;c6b31;a1;n3ff0000000000000,1;c6b32;s78;', 'build 16 a1;o3;k6f70;s6d6f7665;k66726f6d;s2f6b31;k70617468;s;', 'patch 15 16 1',
            'build 17 o1;c6b31;o1;c696e;s76;', 'build 18 a1;o3;k6f70;s636f7079;k66726f6d;s2f6b31;k70617468;s;', 'patch 17 18 1', 'print 17 0',
+           # NULL arguments where the utilities check for them (a NULL *document* for ApplyPatches is
+           # dereferenced by the library and is outside every property: not called)
+           'getp 19 ~ =2f61 1', 'getp 19 1 ~ 1', 'getp 19 ~ ~ 0', 'patch 1 ~ 1', 'patch ~ ~ 0', 'genp 19 ~ 1 1', 'genp 19 1 ~ 0', 'genm 19 1 ~ 1', 'del 19', 'genm 19 ~ 1 0', 'del 19',
+           'sort ~ 1', 'sort ~ 0', 'findp ~ 7', 'findp 1 ~', 'addpatch ~ =616464 =2f78 2', 'addpatch 10 ~ =2f78 2', 'addpatch 10 =616464 ~ 2',
            'del 1', 'del 2', 'del 3', 'del 4', 'del 6', 'del 9', 'del 10', 'del 11', 'del 12', 'del 13', 'del 14', 'del 15', 'del 16', 'del 17', 'del 18']
     return ops
 
